@@ -29,11 +29,13 @@ import (
 	"github.com/piotrnar/gocoin/client/network"
 	"github.com/piotrnar/gocoin/lib/btc"
 	"verif/vlib"
+	"verif/vtrans"
 )
 
 type ConcSpec struct {
 	Seed   uint64 `json:"seed"`
 	Rounds int    `json:"rounds"` // messages processed by the connection's thread
+	Mode   string `json:"mode,omitempty"` // "" = getdata / inv / SendInvs against inv routing + GetStats (below); "stats" = every handler against a GetStats loop (stats.go)
 }
 
 // ---------------------------------------------------------------- parent
@@ -61,10 +63,20 @@ func (h *Harness) concOne(cs Case) {
 	cmd.Dir = tmp
 	var out, errb tail
 	cmd.Stdout, cmd.Stderr = &out, &errb
+	var both lastBytes
+	if spec.Mode == "stats" {
+		// the handlers print payload dumps on both streams: keep the END of the merged output (the runtime's crash
+		// report and the child's own verdict are the last thing written)
+		cmd.Stdout, cmd.Stderr = &both, &both
+	}
 	t0 := time.Now()
 	runErr := cmd.Run()
 	ms := time.Since(t0).Milliseconds()
 	so, se := out.String(), errb.String()
+	if spec.Mode == "stats" {
+		so = string(both.b)
+		se = so
+	}
 	replay := map[string]interface{}{"case": cs}
 	first := func(s, marker string) string {
 		if i := strings.Index(s, marker); i >= 0 {
@@ -99,14 +111,76 @@ func (h *Harness) concOne(cs Case) {
 		what = fmt.Sprintf("child ended abnormally (%v): %s", runErr, clip(se))
 		key = "conc:abnormal"
 	}
+	if what != "" && spec.Mode == "stats" {
+		if i := strings.Index(se, "fatal error:"); i >= 0 {
+			se = se[i:]
+		}
+		replay["stderr"] = clip4k(se)
+		r.PropFail("stats:"+strings.TrimPrefix(key, "conc:"), fmt.Sprintf("a connection thread working through %d cases of every message handler (corpus, generators, wire bytes, Tick, directed histories) while the UI thread reads the connection statistics (GetStats): %s", spec.Rounds, what), replay)
+		r.Hit("conc:stats:FAIL")
+		return
+	}
 	if what != "" {
 		replay["stderr"] = clip4k(se)
 		r.PropFail(key, fmt.Sprintf("a connection thread processing %d well-formed getdata/inv messages concurrently with NetRouteInv/NetRouteInvExt and GetStats: %s", spec.Rounds, what), replay)
 		r.Hit("conc:FAIL")
 		return
 	}
+	if spec.Mode == "stats" {
+		h.statsVerdict(cs, first(so, "CHILD-OK"), ms)
+		return
+	}
 	r.Hit("conc:ok")
 	r.Extra["conc_child"] = first(so, "CHILD-OK") + fmt.Sprintf(" wall_ms=%d", ms)
+	r.TieOK()
+}
+
+// statsVerdict: the stats child ended normally. Which counters did the statistics thread see? Every name of
+// statsMust that the source still contains as a literal must be among them (the directed histories of stats.go
+// exist to reach them; a generator that silently stops reaching a counting site would make the scenario vacuous).
+func (h *Harness) statsVerdict(cs Case, line string, ms int64) {
+	r := h.r
+	names := ""
+	if i := strings.Index(line, "names="); i >= 0 {
+		names = line[i+6:]
+	}
+	seen := strings.Split(names, ",")
+	src := ""
+	dir := vtrans.RepoRoot() + "/client/network"
+	if ents, err := os.ReadDir(dir); err == nil {
+		for _, en := range ents {
+			if strings.HasSuffix(en.Name(), ".go") && !strings.HasSuffix(en.Name(), "_test.go") && !strings.HasPrefix(en.Name(), "verif_") {
+				b, _ := os.ReadFile(dir + "/" + en.Name())
+				src += string(b)
+			}
+		}
+	}
+	var missing []string
+	for _, m := range statsMust {
+		hit := false
+		for _, s := range seen {
+			hit = hit || strings.HasPrefix(s, m)
+		}
+		lit := strings.TrimPrefix(m, "Bad")
+		switch {
+		case hit:
+			r.Hit("stats:counter:" + m)
+		case strings.Contains(src, `"`+lit):
+			missing = append(missing, m)
+		default:
+			r.Hit("stats:counter-gone-from-source:" + m)
+		}
+	}
+	if i := strings.Index(line, " names="); i >= 0 {
+		line = line[:i]
+	}
+	r.Extra["stats_child"] = line + fmt.Sprintf(" wall_ms=%d", ms)
+	r.Extra["stats_child_counters"] = names
+	if len(missing) > 0 {
+		r.TieFail("stats:coverage", "the statistics thread never saw the counters "+strings.Join(missing, ", ")+" although the source still counts them: the directed histories of the concurrent scenario no longer reach those sites", map[string]interface{}{"case": cs})
+		return
+	}
+	r.Hit("conc:stats:ok")
 	r.TieOK()
 }
 
@@ -161,6 +235,10 @@ func childMain() {
 	if json.Unmarshal([]byte(os.Getenv("C18_CONC")), &spec) != nil || spec.Rounds <= 0 {
 		fmt.Println("CHILD-BADSPEC")
 		os.Exit(3)
+	}
+	if spec.Mode == "stats" {
+		statsChildMain(spec)
+		return
 	}
 	rng := vlib.NewRng(spec.Seed)
 	e := NewEnv(rng.Fork())
